@@ -13,6 +13,9 @@
 //!   resolves=0/1          real resolution gives back the IRI
 //!   isref=0/1             the reference is an `irelative-ref` (no scheme)
 //!   parents_ok=0/1        leading `..` segments of the reference <= parents
+//!   gen_same=0/1          `Relativizer<String>`, a clone of it and `base()` agree with `Relativizer<&str>`
+//!   res_same=0/1          `resolve(IriRef)` and `resolve_into` agree with `resolve(&str)`
+//!   utf8=1                the inputs are Rust strings (the model evaluates its UTF-8 shape predicate on them)
 use sophia_iri::relativize::Relativizer;
 use sophia_iri::resolve::BaseIri;
 use sophia_iri::{Iri, IriRef};
@@ -417,6 +420,23 @@ pub fn generate(ctx: &mut GenCtx) {
         ("http://a/b/c/d", "http://a/b/"),
         ("http://a/b/c/d", "http://a/"),
         ("http://a/b/c/d", "http://a"),
+        // 3- and 4-octet characters where `iri[pseudoroot - 1..]` is cut
+        ("http://€?q", "http://€/x"),
+        ("http://𝄞?q", "http://𝄞/x"),
+        ("http://a€?q", "http://a€"),
+        // divergence inside the last character of the base's path / query (siblings sharing leading octets)
+        ("http://a/b/é?q", "http://a/b/ê?q"),
+        ("http://example.org/книга", "http://example.org/книги"),
+        ("http://a/b/€", "http://a/b/₠"),
+        ("http://a/b/𝄞#f", "http://a/b/𝄟#f"),
+        ("http://a/b?€", "http://a/b?‰"),
+        // '/' inside the base's query is no path-segment boundary
+        ("http://a/b/c/d?g=/x", "http://a/b/c/e"),
+        ("http://a/b/c/d?default-graph-uri=http://example.org/g", "http://a/b/x"),
+        // bases deeper than every small limit
+        ("http://a/1/2/3/4/5/6/7/8/9", "http://a/1/x"),
+        ("http://a/1/2/3/4/5/6/7/8/9", "http://a/x"),
+        ("x:1/2/3/4/5/6/7/8/9/10/11/12", "x:1/y"),
     ];
     for (b, i) in corpus {
         for n in PARENTS {
@@ -640,9 +660,9 @@ pub fn exec(line: &str) -> String {
             match r {
                 Err(m) => {
                     // `IriRef::new_unchecked` is `IriRef::new(..).unwrap()` when debug assertions are on (as in `cargo test`)
-                    format!("rel=panic pk={} nopanic=0 gen_same={}", panic_kind(&m), gs)
+                    format!("rel=panic pk={} nopanic=0 gen_same={} utf8=1", panic_kind(&m), gs)
                 }
-                Ok(None) => format!("rel=none nopanic=1 some=0 gen_same={}", gs),
+                Ok(None) => format!("rel=none nopanic=1 some=0 gen_same={} utf8=1", gs),
                 Ok(Some(rf)) => {
                     let res = catch(|| base.resolve(rf.as_str()).map(|i| i.to_string()));
                     let (res_s, resolves) = match &res {
@@ -668,15 +688,25 @@ pub fn exec(line: &str) -> String {
                     })
                     .unwrap_or(None);
                     let res_same = via_ref == first && via_into == first;
+                    // the round trip holds through `resolve(&str)` but not through another entry point of resolve.rs:
+                    // the property is violated there (no FAIL where `resolves=0`: that is judged on `resolves`)
+                    let mut fail = String::new();
+                    if resolves && via_into.as_deref() != Some(is.as_str()) {
+                        fail.push_str(&format!(" FAIL.resolve_into={}", via_into.as_deref().map(hex).unwrap_or("err".into())));
+                    }
+                    if resolves && via_ref.as_deref() != Some(is.as_str()) {
+                        fail.push_str(&format!(" FAIL.resolve_iriref={}", via_ref.as_deref().map(hex).unwrap_or("err".into())));
+                    }
                     format!(
-                        "rel={} nopanic=1 some=1 res={} resolves={} isref={} parents_ok={} gen_same={} res_same={}",
+                        "rel={} nopanic=1 some=1 res={} resolves={} isref={} parents_ok={} gen_same={} res_same={} utf8=1{}",
                         hex(&rf),
                         res_s,
                         b01(resolves),
                         b01(isref),
                         b01(parents_ok),
                         gs,
-                        b01(res_same)
+                        b01(res_same),
+                        fail
                     )
                 }
             }
